@@ -32,6 +32,9 @@ type Scn struct {
 	Parent map[string]any `json:"parent"`
 	// SelLabels satisfy the parent's selector (empty under generateSelector).
 	SelLabels map[string]string `json:"selectorLabels"`
+	// SwitchToSSA (C12): after the setup syncs (dynamic apply) the controller is restarted with
+	// server-side apply: the faulted sync migrates children that still carry the last-applied annotation.
+	SwitchToSSA bool `json:"switchToSSA,omitempty"`
 	// DeleteParent (C12): 1 = the user deletes the parent before the faulted sync,
 	// 2 = and one finalize sync has already run (the faulted sync removes the finalizer).
 	DeleteParent int `json:"deleteParent,omitempty"`
